@@ -7,6 +7,21 @@ OTHER = ("lpush", "rpush", "lpushx", "rpushx", "lpop", "rpop", "llen", "lindex",
          "hset", "hsetnx", "hget", "hmget", "hgetall", "hkeys", "hvals", "hlen", "hexists", "hstrlen", "hdel", "hincrby", "hincrbyfloat", "hrandfield",
          "sadd", "srem", "sismember", "scard", "smembers", "smove", "spop", "srandmember", "sunion", "sinter", "sdiff", "sunionstore", "sinterstore", "sdiffstore",
          "zadd", "zrem", "zrange", "zrank", "xadd", "xrange")
+
+
+def real_clock(v, cov, tier, seed):
+    """SET .. EX / PX / EXAT / KEEPTTL, SETEX and friends over real seconds: random ttl programmes and every pair of a
+    far and a near deadline (replaced deadlines), probed with the string commands, which have no lazy expiry check."""
+    r = ks.run_ttl_random(30 if tier == "quick" else 600, seed)
+    cov["real_clock_programmes"] = r["programmes"]
+    cov["traces_validated_against_impl"] += r["programmes"]
+    for m, path in r["mismatches"]:
+        sig = ks.signature(m)
+        if sig["branch"].split(".")[0] in OTHER:
+            continue
+        v.report(sig, ks.replay_of(m, path), what="real clock:\n" + ks.explain(m, path, context=10))
+
+
 ks.family_check(
     "C01", tier,
     b1_instances=[("MC_String", "MC_String.cfg" if tier == "quick" else "MC_String_thorough.cfg"), ("MC_String", "MC_StringNum.cfg")],
@@ -17,4 +32,4 @@ ks.family_check(
         "INCRBYFLOAT on the exactly-representable decimal subset; operands longer than 15 bytes are unmodelled",
         "time at one-second granularity (deadline windows)"],
     b2_progs=400 if tier == "quick" else 6000,
-    label_filter=lambda b: b.split(".")[0] not in OTHER)
+    label_filter=lambda b: b.split(".")[0] not in OTHER, extra=lambda v, cov, tier, seed: real_clock(v, cov, tier, seed))
